@@ -127,7 +127,7 @@ struct LenpHarness : Harness {
             if (r.chance(1, 8)) { Json e = Json::arr(); e.push((long long)r.range(0, len + 4)); e.push(HARD_ERRORS[r.below(6)]); o["kerr"] = e; }
             ops.push(o);
         }
-        p["ops"] = ops;
+        p["ops"] = ops; if (r.chance(1, 3)) p["macro_init"] = 1;
         return p;
     }
 
@@ -146,6 +146,7 @@ struct LenpHarness : Harness {
     };
 
     void exec(const Json &plan, Ctx &c) override {
+        g_bind_with_macros = plan.geti("macro_init") != 0;
         const Json &ops = plan.get("ops");
         for (size_t oi = 0; oi < ops.size() && oi < 8; ++oi) {
             run_op(c, ops.at(oi), oi);
